@@ -3,3 +3,4 @@ CONSTANTS
   MaxLines = 4
   LenClasses = {"t", "h", "m"}
 INVARIANTS TypeOK Contiguous RunsToOldest ReadBackwardsComplete SeekLandsOnEntry OkSeekKeepsOlder AbsentReports PresentNeverError FileClasses BelowAgrees FallthroughAdmissible EmptyAsTooEarlyComposes OnlyTooEarlyForEmptyCurrent
+PROPERTY FailedSeekKeepsPosition
